@@ -28,6 +28,9 @@ pub fn pid_liveness(pid: u32) -> PidLiveness {
     {
         use std::os::raw::c_int;
 
+        #[cfg(rip_verif)]
+        use verif_kill as kill;
+        #[cfg(not(rip_verif))]
         extern "C" {
             fn kill(pid: i32, sig: c_int) -> c_int;
         }
@@ -52,6 +55,24 @@ pub fn pid_liveness(pid: u32) -> PidLiveness {
     {
         let _ = pid;
         PidLiveness::Unknown
+    }
+}
+
+/// The harness answers the liveness probe at the level of the system call (0 = delivered, else
+/// the errno), so the classification above is the code under test.
+#[cfg(all(rip_verif, unix))]
+unsafe fn verif_kill(pid: i32, sig: std::os::raw::c_int) -> std::os::raw::c_int {
+    extern "C" {
+        fn kill(pid: i32, sig: std::os::raw::c_int) -> std::os::raw::c_int;
+        fn __errno_location() -> *mut i32;
+    }
+    match rip_kernel::verif::kill_errno(pid as u32) {
+        Some(0) => 0,
+        Some(errno) => {
+            *__errno_location() = errno;
+            -1
+        }
+        None => kill(pid, sig),
     }
 }
 
